@@ -149,8 +149,14 @@ func (x *FnCtx) binop(op token.Token, a, b *Term, t types.Type, bt types.Type, s
 				}
 				return tb.Mod(a, b)
 			}
-			x.abstracted("signed division by a non-constant")
-			return x.freshOf("unk_div", t)
+			// signed, variable divisor: exact where both operands are non-negative and the divisor is
+			// positive (SMT div/mod agree with Go there); unknown otherwise
+			u := x.freshOf("unk_div", t).(*Term)
+			nonneg := tb.And(tb.Le(tb.IntC(0), a), tb.Lt(tb.IntC(0), b))
+			if op == token.QUO {
+				return tb.Ite(nonneg, tb.Div(a, b), u)
+			}
+			return tb.Ite(nonneg, tb.Mod(a, b), u)
 		}
 		if !signed {
 			if op == token.QUO {
